@@ -74,6 +74,13 @@ def run_case(case):
             got = "err"
         if got != want:
             out.append(f"evaluation of {o} (ctx={step.get('ctx')}) returned {got!r}, expected {want!r}")
+        if cache_off and calls["backend"] != before["backend"]:
+            out.append(f"caching disabled for {o} (ctx={step.get('ctx')}) but evaluate() reached the cache backend")
+        if cache_off and "A" in o and calls["body"] != before["body"] + 1:
+            out.append(f"caching disabled for {o} but the body did not run")
+        eff_off = o.get("LABREA", {}).get("EFFECTS", {}).get("DISABLED")
+        if eff_off and calls["effect"] != before["effect"]:
+            out.append(f"effects disabled for {o} but an effect ran")
         if step.get("ctx") == "cache":
             # nested inside logging.disabled(): the cache-disabled context must keep the enclosing handlers (derived with handle())
             import logging as _pl
@@ -97,13 +104,6 @@ def run_case(case):
                 lg.removeHandler(h); lg.setLevel(old)
             if records:
                 out.append(f"logging.disabled() outside cache.disabled(): {len(records)} log records were emitted")
-        if cache_off and calls["backend"] != before["backend"]:
-            out.append(f"caching disabled for {o} (ctx={step.get('ctx')}) but evaluate() reached the cache backend")
-        if cache_off and "A" in o and calls["body"] != before["body"] + 1:
-            out.append(f"caching disabled for {o} but the body did not run")
-        eff_off = o.get("LABREA", {}).get("EFFECTS", {}).get("DISABLED")
-        if eff_off and calls["effect"] != before["effect"]:
-            out.append(f"effects disabled for {o} but an effect ran")
     return out
 
 
